@@ -24,6 +24,7 @@ func runC06(c *an.Ctx) string {
 	r064Location(c)
 	r065Siblings(c)
 	r06SchemeKeyed(c, "R06.6")
+	r067InheritanceAgreement(c, "R06.7")
 	return explanationC06
 }
 
@@ -614,4 +615,67 @@ func r06SchemeKeyed(c *an.Ctx, rule string) {
 		}
 	}
 	c.Floor(rule, n, 5, "API-key tag lookups inside scheme-specific arms")
+}
+
+// r067InheritanceAgreement (R06.7, shared with C01 and C12): the validator
+// (MethodExpr.Validate) and the finalizer (MethodExpr.Finalize) each pick the
+// security requirements that apply to a method - its own, else its service's,
+// else the API's. Both walk the owners in one order. If they disagree the design
+// is validated against one set of schemes and generated with another: a payload
+// that lacks the attributes of the generated schemes is accepted, and the
+// generators dereference what is not there.
+func r067InheritanceAgreement(c *an.Ctx, rule string) {
+	order := func(f *an.Func) []string {
+		var out []string
+		seen := map[string]bool{}
+		ast.Inspect(f.Decl.Body, func(nd ast.Node) bool {
+			is, ok := nd.(*ast.IfStmt)
+			if !ok {
+				return true
+			}
+			cmp, ok := an.Unparen(is.Cond).(*ast.BinaryExpr)
+			if !ok || cmp.Op != token.GTR {
+				return true
+			}
+			call, ok := an.Unparen(cmp.X).(*ast.CallExpr)
+			if !ok || len(call.Args) != 1 {
+				return true
+			}
+			se, ok := an.Unparen(call.Args[0]).(*ast.SelectorExpr)
+			if !ok || se.Sel.Name != "Requirements" {
+				return true
+			}
+			owner := an.Src(c.Fset, se.X)
+			// normalise the receiver name away
+			if i := strings.Index(owner, "."); i >= 0 && !strings.HasPrefix(owner, "Root") {
+				owner = "method" + owner[i:]
+			} else if !strings.HasPrefix(owner, "Root") {
+				owner = "method"
+			}
+			if !seen[owner] {
+				seen[owner] = true
+				out = append(out, owner)
+			}
+			return true
+		})
+		return out
+	}
+	v, fz := c.MustFunc(rule, "expr", "MethodExpr.Validate"), c.MustFunc(rule, "expr", "MethodExpr.Finalize")
+	if v == nil || fz == nil {
+		return
+	}
+	ov, of := order(v), order(fz)
+	// Finalize tests its own list with == 0 first; compare the inherited owners only
+	strip := func(xs []string) []string {
+		var out []string
+		for _, x := range xs {
+			if x != "method" {
+				out = append(out, x)
+			}
+		}
+		return out
+	}
+	a, b := strings.Join(strip(ov), " > "), strings.Join(strip(of), " > ")
+	c.Check(a == b && a != "", rule, "expr.MethodExpr#requirement inheritance", v.Decl.Pos(), "validator and finalizer inherit requirements in the same order ("+a+")",
+		"the validator inherits requirements in the order "+a+" but the finalizer in the order "+b+": a design is validated against one owner's schemes and generated with another's")
 }
